@@ -11,7 +11,7 @@ def search(ctx):
 
 
 def run(ctx):
-    ctx.prove(PROPS, extra_modules=["RotoV.Model.Tarjan", "RotoV.Lemmas.Tarjan", "RotoV.Lemmas.TarjanCtx", "RotoV.Lemmas.TarjanNoPanic"])
+    ctx.prove(PROPS, extra_modules=["RotoV.Model.Tarjan", "RotoV.Model.TarjanLir", "RotoV.Lemmas.Tarjan", "RotoV.Lemmas.TarjanCtx", "RotoV.Lemmas.TarjanNoPanic", "RotoV.Lemmas.TarjanLir"])
     if ctx.build_harness("c14"):
         ctx.harness("c14", ["run", ctx.seed, ctx.tier], timeout=3000)
     ctx.trusted += [
